@@ -208,6 +208,9 @@ def gen_options(r):
         o['hide'] = r.sample(pats, 1)
     if o['joliet'] and r.random() < 0.15:
         o['hide_joliet'] = r.sample(pats, 1)
+    o['hide_udf'] = []
+    if o['udf'] and r.random() < 0.2:
+        o['hide_udf'] = r.sample(pats, 1)
     if r.random() < 0.15:
         o['hidden'] = r.sample(pats, 1)
     o['exclude_flag'] = r.choice(('-m', '-x', '-exclude'))
@@ -390,6 +393,8 @@ def expected_view(plan, src, view):
                 continue
             if view == 'joliet' and match(o['hide_joliet'], base):
                 continue
+            if view == 'udf' and match(o.get('hide_udf') or [], base):
+                continue
             out[p] = ('f', ckey(v[1], mask))
         elif v[0] == 'l':
             if not symlinks_recorded:
@@ -565,6 +570,8 @@ def gen_argv(plan, src_root, out_iso):
         a += ['-hide', p]
     for p in o['hide_joliet']:
         a += ['-hide-joliet', p]
+    for p in o.get('hide_udf') or []:
+        a += ['-hide-udf', p]
     for p in o['hidden']:
         a += ['-hidden', p]
     b = o['boot']
@@ -934,7 +941,7 @@ def _probe_tree(ctx, plan, src):
             pr['dup_linked_candidates'] += 1
     if o['exclude'] and any(match(o['exclude'], c) for p in src for c in p.split('/')):
         pr['exclude_hit'] += 1
-    if (o['hide'] or o['hide_joliet']) and any(match(o['hide'] + o['hide_joliet'], p.rsplit('/', 1)[-1]) for p, v in src.items() if v[0] == 'f'):
+    if (o['hide'] or o['hide_joliet'] or o.get('hide_udf')) and any(match(o['hide'] + o['hide_joliet'] + (o.get('hide_udf') or []), p.rsplit('/', 1)[-1]) for p, v in src.items() if v[0] == 'f'):
         pr['hide_hit'] += 1
     # collisions after mangling: two siblings whose mangled names agree
     try:
@@ -956,7 +963,7 @@ def _probe_tree(ctx, plan, src):
 
 def simplifications(plan):
     o = plan['opts']
-    for k, v in (('dups', False), ('joliet', False), ('udf', False), ('boot', None), ('exclude', []), ('hide', []), ('hide_joliet', []), ('hidden', []),
+    for k, v in (('dups', False), ('joliet', False), ('udf', False), ('boot', None), ('exclude', []), ('hide', []), ('hide_joliet', []), ('hide_udf', []), ('hidden', []),
                  ('rrip', None), ('iso_level', 3), ('iso_level', 1)):
         if o.get(k) != v:
             p = json.loads(json.dumps(plan))
